@@ -90,3 +90,33 @@ def plan(edges, kind, max_len=300):
         if not progressed and fi > 4 * len(first_choices):
             break   # (unreachable transitions: cannot happen, every state was reached from init)
     return histories, total, total - remaining
+
+
+def memo_histories(kind):
+    """Histories whose outcome depends on what the SAME object accepted earlier (a transition cover
+    does not ask for that): a program accepted under one verifier, replaced, a stricter verifier
+    installed, the first program (the very same slice) offered again - it must be refused and the
+    VM must go on running the other one.  The specification (TraceApi) supplies the verdicts."""
+    acc = {"default": ["P1", "P2", "P4", "P5", "P6", "P7", "P8", "P9"],
+           "acceptAll": ["P1", "P2", "P3", "P4", "P5", "P6", "P7", "P8", "P9"],
+           "custom": ["P1", "P2", "P4", "P6"]}
+    # (P7 needs a packet, P8 / P9 the fixed-metadata VM: VmApi!Progs)
+    absent = set(["P7"] if kind == "nodata" else []) | set([] if kind == "fixed" else ["P8", "P9"])
+    acc = {v: [p for p in ps if p not in absent] for v, ps in acc.items()}
+    out = []
+    for a in ("default", "acceptAll"):
+        for b in ("custom", "default"):
+            if a == b or b == "default":
+                continue
+            only_a = [p for p in acc[a] if p not in acc[b]]
+            both = [p for p in acc[a] if p in acc[b]]
+            for i, p in enumerate(only_a):
+                q = both[i % len(both)]
+                pre = [] if a == "default" else [["set_verifier", a]]
+                tail = [["set_program", [q, "A"]], ["exec", "pa"], ["set_verifier", b], ["set_program", [p, "A"]],
+                        ["exec", "pa"], ["exec", "pb"], ["jit_compile", "none"], ["exec_jit", "pa"],
+                        ["set_verifier", "acceptAll"], ["set_program", [p, "A"]], ["exec", "pa"]]
+                out.append({"kind": kind, "first": "none", "calls": pre + [["set_program", [p, "A"]], ["exec", "pa"]] + tail})
+                if a == "default":
+                    out.append({"kind": kind, "first": p, "calls": [["exec", "pa"]] + tail})
+    return out
